@@ -72,7 +72,7 @@ def ev(e, fresh, leaves):
     if k == "pre":
         a = ev(e[2], fresh, leaves)
         p = Prefix._by_name[e[1]] if isinstance(e[1], str) else Prefix(e[1][0], e[1][1])
-        return p * a
+        return a * p if (len(e) > 3 and e[3] == "r") else p * a        # the prefix written on the right of the unit
     if k == "num":
         a = ev(e[1], fresh, leaves); render_routes(a); return a.as_ratio()[0]
     if k == "den":
